@@ -291,6 +291,7 @@ def run(chk):
     _asmarity_rule(chk, full)
     _pegsigned_rule(chk, full)
     _envindex_rule(chk, full)
+    _slotsign_rule(chk, full)
 
 
 def _envvalid_rule(chk, prog):
@@ -2037,4 +2038,37 @@ def _envindex_rule(chk, prog):
             chk.violation(rule, "vm.c", "run_vm", "envs-index:" + v, sx.loc,
                           "`%s` is reached without `%s < environments_length` of that function on every path (an off-by-one accepts the "
                           "index equal to the count): the closure takes the word behind the function object as a JanetFuncEnv pointer" % (sx.text(), v))
+    chk.floor(rule, 1, n)
+
+
+def _slotsign_rule(chk, prog):
+    """Symbol maps (which register holds which named local, and from which pc to which) come out of asm input and out
+    of images unchecked - janet_verify does not look at them - and are used only by the debugger, which bounds each
+    slot index against the frame's slot count before it reads stack[slot].  The index is a uint32_t; the comparison
+    has to stay unsigned (or be preceded by a sign test): converted to int32_t, an index of 2^31 or more is negative,
+    passes `< slotcount`, and the read lands far outside the fiber's stack."""
+    rule = "C10-SLOTSIGN"
+    chk.rule(rule, "a symbol-map slot index is bounded against the slot count as an unsigned value: no comparison uses it converted to a signed type")
+    n = 0
+    for fn in prog.all_funcs():
+        for x in fn.nodes:
+            if x.k != "bin" or x.op not in ("<", "<=", ">", ">="):
+                continue
+            sides = [k for k in x.kids if any(y.k == "mem" and y.field == "slot_index" for y in k.walk())]
+            if not sides or not any(y.k == "mem" and y.field == "slotcount" for k in x.kids for y in k.walk()):
+                continue
+            n += 1
+            chk.instance(rule)
+            chk.analysed(fn)
+            k = sides[0]
+            while k.k == "paren" and k.kids:
+                k = k.kids[0]
+            signed = k.k == "cast" and (k.t or "") in ("int32_t", "int", "long", "int64_t")
+            if signed:
+                chk.violation(rule, fn.tu.name, fn.name, "slot_index", x.loc,
+                              "`%s` compares the symbol map's slot index after converting it to %s: an index of 2^31 or more (from an asm "
+                              "input or an image) becomes negative, passes the bound, and debug/stack reads stack[index] far outside the "
+                              "fiber's stack" % (x.text()[:60], k.t))
+            else:
+                chk.ok(rule, "%s: `%s` is an unsigned comparison" % (fn.name, x.text()[:50]))
     chk.floor(rule, 1, n)
